@@ -353,6 +353,11 @@ class DirectoryRecord:
         if self.parent is None:
             raise pycdlibexception.PyCdlibInternalError('Invalid call to create new Rock Ridge on root directory')
 
+        if self.dr_len + rockridge.RRCERecord.length() > rockridge.ALLOWED_DR_SIZE:
+            # Rock Ridge can move everything else to a continuation area, but
+            # the entry that points there has to live in the record itself.
+            raise pycdlibexception.PyCdlibInvalidInput('Name is too long to fit in a Directory Record with Rock Ridge')
+
         self.rock_ridge = rockridge.RockRidge()
         is_first_dir_record_of_root = self.file_ident == b'\x00' and self.parent.is_root
         bytes_to_skip = 0
@@ -493,6 +498,10 @@ class DirectoryRecord:
             self.dr_len += XARecord.length()
 
         self.dr_len += (self.dr_len % 2)
+
+        # Ecma-119 9.1.1 stores the length of the record in a single byte.
+        if self.dr_len > 255:
+            raise pycdlibexception.PyCdlibInvalidInput('Name is too long to fit in a Directory Record')
 
         if self.is_root:
             self._printable_name = '/'.encode(vd.encoding)
